@@ -114,12 +114,16 @@ def hook_commits():
     return [l.split()[0] for l in out.splitlines() if "verif hook" in l]
 
 
+# properties whose check has been run and reviewed on the unchanged tree (extend as areas are integrated)
+READY = [l.strip() for l in open(os.path.join(VERIF, "lib/ready.txt")).read().split() if l.strip()]
+
+
 def main():
     force = set(sys.argv[1:])
     checks, na = [], []
     for pid in ORDER:
         d = P[pid]
-        if (has_theorems(pid) and harness_exists(pid)) or pid in force:
+        if (pid in READY and has_theorems(pid) and harness_exists(pid)) or pid in force:
             checks.append({
                 "property_id": pid,
                 "quick_cmd": "bin/check %s quick" % pid,
